@@ -154,4 +154,108 @@ theorem refines_TransactionMergePrepare :
   tx_refine [transMergePrepare, SrcTx.TransactionMergePrepare, view_TransactionMergePrepare, refines_SplitMergeInfo.keep,
     refines_TrStoragePhase.keep]
 
+/-! ### message infos, messages -/
+
+theorem refines_InternalMsgInfo :
+    RefinesP PV (SrcTx.InternalMsgInfo false) (ctag (tag 1 0) intMsgInfo) view_InternalMsgInfo := by
+  tx_refine [intMsgInfo, SrcTx.InternalMsgInfo, view_InternalMsgInfo, refines_MsgAddressInt.keepV, refines_CurrencyCollection.keep]
+
+theorem refines_ExternalMsgInfo :
+    RefinesP PV (SrcTx.ExternalMsgInfo false) (ctag (tag 2 2) extInMsgInfo) view_ExternalMsgInfo := by
+  tx_refine [extInMsgInfo, SrcTx.ExternalMsgInfo, view_ExternalMsgInfo, refines_MsgAddressInt.keepV, refines_MsgAddressExt.keep]
+
+theorem refines_ExternalOutMsgInfo :
+    RefinesP PV (SrcTx.ExternalOutMsgInfo false) (ctag (tag 2 3) extOutMsgInfo) view_ExternalOutMsgInfo := by
+  tx_refine [extOutMsgInfo, SrcTx.ExternalOutMsgInfo, view_ExternalOutMsgInfo, refines_MsgAddressInt.keepV, refines_MsgAddressExt.keep]
+
+theorem noVar_con (n : String) (x : Val) (h : (Val.con n x).noVar = true) : x.noVar = true := by
+  simp only [Val.noVar, Bool.and_eq_true] at h; exact h.2
+
+theorem refines_CommonMsgInfo : RefinesP PV (SrcTx.CommonMsgInfo false) commonMsgInfo view_CommonMsgInfo := by
+  rintro ⟨bits, refs⟩ v s'
+  simp only [commonMsgInfo, typ_dec, commonMsgInfoAlts_eq, tagged_dec, decAlts_cons, decAlts_nil, tag, natToBits,
+    Nat.reduceDiv, Nat.reduceMod, Nat.reduceBEq, Nat.reduceBNe, List.cons_append, List.nil_append, Frag.mk.injEq]
+  rintro ⟨_, h⟩ hv
+  rcases h with ⟨t, rs, ⟨rfl, rfl⟩, x, hx, rfl⟩ | ⟨_, ⟨t, rs, ⟨rfl, rfl⟩, x, hx, rfl⟩ | ⟨_, ⟨t, rs, ⟨rfl, rfl⟩, x, hx, rfl⟩ | ⟨_, hf⟩⟩⟩
+  · have := refines_InternalMsgInfo ⟨false :: t, refs⟩ x s'
+      ((ctag_dec _ _ _ _ _).2 ⟨t, refs, by simp [tag, natToBits], hx⟩) (noVar_con _ _ hv)
+    simp [SrcTx.CommonMsgInfo, preloadBit_cons, Rd.truthy, this, view_CommonMsgInfo]
+  · have := refines_ExternalMsgInfo ⟨true :: false :: t, refs⟩ x s'
+      ((ctag_dec _ _ _ _ _).2 ⟨t, refs, by simp [tag, natToBits], hx⟩) (noVar_con _ _ hv)
+    simp [SrcTx.CommonMsgInfo, preloadBit_cons, preloadBits_cons, takeBits_succ, takeBits_zero, Rd.truthy, Rd.veq, Rd.bits01, this,
+      view_CommonMsgInfo]
+  · have := refines_ExternalOutMsgInfo ⟨true :: true :: t, refs⟩ x s'
+      ((ctag_dec _ _ _ _ _).2 ⟨t, refs, by simp [tag, natToBits], hx⟩) (noVar_con _ _ hv)
+    simp [SrcTx.CommonMsgInfo, preloadBit_cons, preloadBits_cons, takeBits_succ, takeBits_zero, Rd.truthy, Rd.veq, Rd.bits01, this,
+      view_CommonMsgInfo]
+  · exact hf.elim
+
+/-- `MessageAny.deserialize` (value only: the type closes its cell; an inline body is not consumed by the parser) -/
+theorem refines_Message : RefinesEP PV (SrcTx.MessageAny false) message view_Message := by
+  tx_refine [message, SrcTx.MessageAny, view_Message, viewInit, viewBody, refines_CommonMsgInfo.keepV, maybe_dec, either_dec,
+    rest_dec, ref_rest_dec, refines_StateInit.keep, refK (r := Src.StateInit) refines_StateInit, Rd.toCell]
+
+theorem nonUnit_message : NonUnit message := by unfold message; tlb_nonunit
+
+theorem refines_MsgMetadata : RefinesP PV (SrcTx.MsgMetadata false) msgMetadata view_MsgMetadata := by
+  tx_refine [msgMetadata, SrcTx.MsgMetadata, view_MsgMetadata, refines_MsgAddressInt.keepV]
+
+theorem nonUnit_msgMetadata : NonUnit msgMetadata := by unfold msgMetadata; tlb_nonunit
+
+theorem refines_MsgEnvelope : RefinesP PV (SrcTx.MsgEnvelope false) msgEnvelope view_MsgEnvelope := by
+  tx_refine [msgEnvelope, msgEnvelopeAlts, SrcTx.MsgEnvelope, view_MsgEnvelope, refines_IntermediateAddress.keep,
+    refKP (r := SrcTx.MessageAny) refines_Message, kOptUint64, optKP refines_MsgMetadata nonUnit_msgMetadata]
+
+/-! ### descriptions with a nested transaction; `TransactionDescr`; `Transaction` for every nesting budget -/
+
+section Nested
+variable {rtx : Bool → Frag → Rd.R} {tx : Codec} {wtx : Val → Val}
+
+theorem refines_TransactionSplitInstall (htx : RefinesEP PV (rtx false) tx wtx) :
+    RefinesP PV (SrcTx.TransactionSplitInstall rtx false) (transSplitInstall tx) (view_TransactionSplitInstall wtx) := by
+  tx_refine [transSplitInstall, SrcTx.TransactionSplitInstall, view_TransactionSplitInstall, refines_SplitMergeInfo.keep,
+    refKP (r := rtx) htx]
+
+theorem refines_TransactionMergeInstall (htx : RefinesEP PV (rtx false) tx wtx) :
+    RefinesP PV (SrcTx.TransactionMergeInstall rtx false) (transMergeInstall tx) (view_TransactionMergeInstall wtx) := by
+  tx_refine [transMergeInstall, SrcTx.TransactionMergeInstall, view_TransactionMergeInstall, refines_SplitMergeInfo.keep,
+    refKP (r := rtx) htx, refines_TrComputePhase.keep, kOptStorage, kOptCredit, kOptAction]
+
+theorem refines_TransactionDescr (htx : RefinesEP PV (rtx false) tx wtx) :
+    RefinesP PV (SrcTx.TransactionDescr rtx false) (transactionDescrF tx) (view_TransactionDescr wtx) := by
+  tx_refine [transactionDescrF, transactionDescrFAlts_eq, SrcTx.TransactionDescr, view_TransactionDescr,
+    refines_TransactionOrdinary.keep, refines_TransactionStorage.keep, refines_TransactionTickTock.keep,
+    refines_TransactionSplitPrepare.keep, refines_TransactionMergePrepare.keep,
+    (refines_TransactionSplitInstall htx).keepV, (refines_TransactionMergeInstall htx).keepV]
+
+end Nested
+
+
+/-- one level of `Transaction.deserialize`, given the reader / view / theorem of the nested level -/
+theorem refines_Transaction_step (b : Nat)
+    (ih : RefinesP PV (SrcTx.Transaction b false) (transactionF b) (view_Transaction b)) :
+    RefinesP PV (SrcTx.Transaction (b + 1) false) (transactionF (b + 1)) (view_Transaction (b + 1)) := by
+  have hd := (refines_TransactionDescr ih.toE).toE
+  clear ih
+  rintro ⟨bits, refs⟩ v s'
+  tx_struct [transactionF, SrcTx.Transaction, view_Transaction, refines_AccountStatus.keep, refines_CurrencyCollection.keep,
+    maybe_dec, refKPM (r := SrcTx.MessageAny) refines_Message nonUnit_message,
+    dictKVS (rd := Rd.viaRef SrcTx.MessageAny) (refines_Message.viaRef).toE 15,
+    refK (r := Src.HashUpdate) refines_HashUpdate, refKP (r := SrcTx.TransactionDescr (SrcTx.Transaction b)) hd]
+  repeat' (first
+    | apply And.intro
+    | (intro h
+       first
+         | (simp only [Frag.mk.injEq] at h; obtain ⟨h1, h2⟩ := h; subst h1; subst h2)
+         | subst h
+         | skip))
+  all_goals clear hd
+  all_goals tx_eval_dict [view_Transaction, viewMaybe_id, Val.noVar, noVarFs, Bool.and_eq_true, noVar_unit, PT, PV,
+    viewDict, viewDictValues]
+
+/-- `Transaction.deserialize` for EVERY nesting budget `b` of `prepare_transaction:^Transaction` -/
+theorem refines_Transaction : ∀ b, RefinesP PV (SrcTx.Transaction b false) (transactionF b) (view_Transaction b)
+  | 0 => by intro s v s' h; simp [transactionF, failC] at h
+  | b+1 => refines_Transaction_step b (refines_Transaction b)
+
 end TonVerif.Tlb.Tx
